@@ -30,8 +30,10 @@ CONSTANTS BSZ, RADIX, Batches, MaxCalls, MaxReq, Keys, Shipped
 VARIABLES apos, akey,      \* abstract position <<c, j>> and key
           impl,            \* [B \in Batches -> [lanes, buf, offset, key]]
           aout, iout,      \* keystream used by the last Encrypt: abstract / per B
+          seg,             \* ghost: position and key at the last position-defining call
+          cat,             \* ghost: [B -> keystream used by ALL Encrypt calls since then]
           calls
-vars == <<apos, akey, impl, aout, iout, calls>>
+vars == <<apos, akey, impl, aout, iout, seg, cat, calls>>
 
 Counters == [1..BSZ -> 0..(RADIX-1)]
 AllCounters == {SubSeq(c, 1, BSZ) : c \in Counters}
@@ -111,6 +113,7 @@ Init ==
     /\ apos = PosInit(BSZ) /\ akey = "nokey"
     /\ impl = [B \in Batches |-> ImplInit(B)]
     /\ aout = <<>> /\ iout = [B \in Batches |-> <<>>]
+    /\ seg = [pos |-> PosInit(BSZ), key |-> "nokey"] /\ cat = [B \in Batches |-> <<>>]
     /\ calls = 0
 
 DoInit ==
@@ -118,6 +121,7 @@ DoInit ==
     /\ apos' = PosInit(BSZ) /\ akey' = "nokey"
     /\ impl' = [B \in Batches |-> ImplInit(B)]
     /\ aout' = <<>> /\ iout' = [B \in Batches |-> <<>>]
+    /\ seg' = [pos |-> PosInit(BSZ), key |-> "nokey"] /\ cat' = [B \in Batches |-> <<>>]
     /\ calls' = calls + 1
 
 DoSetCounter(c) ==
@@ -125,6 +129,7 @@ DoSetCounter(c) ==
     /\ apos' = PosSetCounter(c)
     /\ impl' = [B \in Batches |-> ImplSetCounter(B, impl[B], c)]
     /\ aout' = <<>> /\ iout' = [B \in Batches |-> <<>>]
+    /\ seg' = [pos |-> PosSetCounter(c), key |-> akey] /\ cat' = [B \in Batches |-> <<>>]
     /\ calls' = calls + 1 /\ UNCHANGED akey
 
 DoSetKey(k) ==
@@ -132,6 +137,7 @@ DoSetKey(k) ==
     /\ akey' = k /\ apos' = PosRekey(RADIX, apos)
     /\ impl' = [B \in Batches |-> ImplSetKey(B, impl[B], k)]
     /\ aout' = <<>> /\ iout' = [B \in Batches |-> <<>>]
+    /\ seg' = [pos |-> PosRekey(RADIX, apos), key |-> k] /\ cat' = [B \in Batches |-> <<>>]
     /\ calls' = calls + 1
 
 DoEncrypt(n) ==
@@ -141,7 +147,8 @@ DoEncrypt(n) ==
     /\ LET r == [B \in Batches |-> ImplEncrypt(B, impl[B], n)]
        IN  /\ impl' = [B \in Batches |-> r[B][1]]
            /\ iout' = [B \in Batches |-> r[B][2]]
-    /\ calls' = calls + 1 /\ UNCHANGED akey
+           /\ cat' = [B \in Batches |-> cat[B] \o r[B][2]]
+    /\ calls' = calls + 1 /\ UNCHANGED <<akey, seg>>
 
 Next ==
     \/ DoInit
@@ -154,6 +161,12 @@ Spec == Init /\ [][Next]_vars
 ----------------------------------------------------------------------------
 (* C05: every back end produces the contract's keystream ...               *)
 StreamLaw == \A B \in Batches : iout[B] = aout
+
+(* C05, split independence: the concatenation of everything produced since  *)
+(* the last position-defining call is ONE keystream from that position,     *)
+(* however the data was cut into calls (zero-length calls included)         *)
+SplitIndependent ==
+    \A B \in Batches : cat[B] = AbsStream(seg.key, seg.pos, Len(cat[B]))
 
 (* ... C06: hence all back ends agree with each other                      *)
 BackendsAgree == \A B1, B2 \in Batches : iout[B1] = iout[B2]
